@@ -75,7 +75,14 @@ def generate(seed, prop):
         dur = wl * nwin + rng.choice([0.0, 0.3 * wl])
         if rate * dur > 220000:                       # keep files small enough
             dur = wl * 2
-        files.append({"stem": "f%d_%s" % (i, rng.choice(["a", "b", "c"])), "rate": rate,
+        style = rng.random()
+        if style < 0.6:
+            stem = "f%d_%s" % (i, rng.choice(["a", "b", "c"]))
+        elif style < 0.85:
+            stem = "UT.STN%d.%s" % (i, rng.choice(["a2", "c50"]))      # dots inside the name; common prefix
+        else:
+            stem = "rec %d-%s" % (i, rng.choice(["x", "y"]))            # a space and a dash
+        files.append({"stem": stem, "rate": rate,
                       "n": int(rate * dur) + 1, "k": rng.randrange(1 << 30)})
     pre = {"window_length_in_seconds": wl, "detrend": rng.choice(["linear", "constant"]),
            "filter": rng.choice([[None, None], [0.2, None]]), "orient": rng.choice([0.0, 30.0])}
